@@ -298,7 +298,8 @@ def run_tables(cfg, counters, violations, samples):
                 path = r.choice(paths) if case % 2 else paths_for_case[_k]
                 if hot_path is not None and _k < 3:
                     path = hot_path
-                method = r.choice(["GET", "POST", "PUT", "DELETE"]) if case % 2 else r.choice(["GET", "POST"])
+                method = r.choice(["GET", "POST", "PUT", "DELETE", "HEAD", "OPTIONS", "PATCH", "get", "Post", "TRACE"]) if case % 2 else r.choice(["GET", "POST"])
+                # (a method nobody registered a route for - HEAD, OPTIONS, a lower-case spelling - matches nothing: 404)
                 want = None
                 unspec = False
                 for rt, parts in zip(routes, parsed):
